@@ -244,7 +244,18 @@ func churn(be backend, opts pubsub.BrokerOptions, nsubs, pubs, msgs int, actions
 			chans := make([]chan int, nsubs)
 			for i := range subs {
 				s := subs[i]
-				ch := b.Subscribe(cctx)
+				var ch chan int
+				for _, a := range actions {
+					if a == fmt.Sprintf("subctx:%d", i) {
+						// the context handed to Subscribe only bounds the handshake
+						sctx, end := context.WithCancel(context.Background())
+						ch = b.Subscribe(sctx)
+						end()
+					}
+				}
+				if ch == nil {
+					ch = b.Subscribe(cctx)
+				}
 				chans[i] = ch
 				s.subscribed = vs.Now()
 				n++
@@ -280,6 +291,8 @@ func churn(be backend, opts pubsub.BrokerOptions, nsubs, pubs, msgs int, actions
 					b.Unsubscribe(cctx, make(chan int))
 				case a == "unsub:nil":
 					b.Unsubscribe(cctx, nil)
+				case strings.HasPrefix(a, "subctx:"):
+					// handled at subscription time
 				default:
 					var i int
 					fmt.Sscanf(a, "unsub:%d", &i)
@@ -366,7 +379,12 @@ func build(tier string) ([]runner.Instance, time.Duration) {
 						continue
 					}
 					opts := pubsub.BrokerOptions{ParallelDispatch: par, WorkerPoolSize: w, BufferSize: buf}
-					for _, shape := range [][2]int{{1, 1}, {1, 2}, {2, 1}, {2, 2}} {
+					shapes := [][2]int{{1, 1}, {1, 2}, {2, 1}, {2, 2}}
+					if buf == 1 && be.lossless {
+						// a subscriber that falls more than the buffer behind one publisher
+						shapes = append(shapes, [2]int{1, 3})
+					}
+					for _, shape := range shapes {
 						if shape == [2]int{2, 2} && tier != "thorough" {
 							continue
 						}
@@ -395,6 +413,8 @@ func build(tier string) ([]runner.Instance, time.Duration) {
 		{1, 0, 0, []string{"unsub:foreign"}, false},
 		{1, 0, 0, []string{"unsub:nil"}, false},
 		{2, 0, 0, []string{"unsub:0", "unsub:foreign"}, false},
+		{2, 1, 1, []string{"subctx:0"}, false},
+		{1, 1, 2, []string{"subctx:0"}, false},
 		{3, 1, 2, []string{"unsub:1"}, true},
 		{3, 2, 1, []string{"unsub:0", "unsub:2"}, true},
 		{3, 1, 1, []string{"unsub:1", "unsub:1", "unsub:foreign"}, true},
